@@ -428,6 +428,7 @@ impl Check for C09 {
             // masks and the like only go wrong beyond 32 / 64 children)
             10 => *g.pick(&[33usize, 64, 65, 66, 100, 130]),
             11 if g.chance(1, 4) => g.log_uniform(9, 3000),
+            12 | 13 => ((run / 3) % 161) as usize, // dense sweep of population sizes 0..=160 (by run index)
             _ => g.urange(0, 8),
         };
         let plan = |g: &mut Xo, k: u64| -> Vec<usize> {
